@@ -22,6 +22,28 @@ def classify(v):
     return None
 
 
+def is_variable(v):
+    """the term denotes one module-scope variable itself: the element of an iteration over module.global_variables (its second component
+    when the arena yields (handle, variable) pairs), or module.global_variables[handle]"""
+    while v[0] in ('unwrap',):
+        v = v[1]
+    if v[0] == 'tf' and v[2] == 1 and v[1][0] == 'elem' and v[1][2][0] == 'f' and v[1][2][2] == 'global_variables':
+        return True
+    if v[0] == 'idx' and v[1][0] == 'f' and v[1][2] == 'global_variables':
+        return True
+    return False
+
+
+def rt(base, spec):
+    """the term of a role on a record value: a field, or a path of fields (`record.global.name` when the record keeps a reference to the
+    variable instead of copies of its fields)"""
+    if isinstance(spec, str):
+        return ('f', base, spec)
+    for seg in spec:
+        base = ('f', base, seg)
+    return base
+
+
 def binding_roles(ogp):
     """({'index'|'type'|'space'|'name' -> field name}, struct path) from the struct literal pushed onto a group's binding list (Engine A)"""
     key = id(ogp)
@@ -37,6 +59,11 @@ def binding_roles(ogp):
                     r = classify(val)
                     if r and r not in roles:
                         roles[r] = fname
+                for fname, val in st[2].items():
+                    if is_variable(val):
+                        # the record keeps (a reference to) the variable itself: its name and address space are read through it
+                        roles.setdefault('name', (fname, 'name'))
+                        roles.setdefault('space', (fname, 'space'))
                 if {'index', 'type', 'space', 'name'} <= set(roles):
                     found.append((roles, st[1]))
     res = found[0] if found else (None, None)
@@ -64,6 +91,13 @@ def mir_binding_roles(mir):
                             roles['index'] = fname
                         elif tail.endswith('.space') and 'space' not in roles:
                             roles['space'] = fname
+                    if 'index' in roles and 'space' not in roles:
+                        # the record keeps a reference to the variable itself (`global: &GlobalVariable`): its address space is read through it
+                        from engine_mir import op_local
+                        for fname, o in zip(rv['fields'], rv['ops']):
+                            l_ = op_local(o)
+                            if l_ is not None and B.locals[l_].replace(' ', '') in ('&naga::GlobalVariable', "&'_naga::GlobalVariable"):
+                                roles['space'] = (fname, 'space')
                     if {'index', 'space'} <= set(roles) and len(rv['fields']) >= 3:
                         return roles, rv['agg']
     return None, None
